@@ -1,6 +1,6 @@
 (* C03 — the compiled reader is observationally equivalent to the interpreted reader. *)
 From Coq Require Import Lia.
-From VF Require Import Model.Reader Model.Writer Model.Compiler Proofs.ArrayProps Proofs.BlockProps Proofs.ShiftProps Proofs.CompilerProps Gen.GeneratedOk.
+From VF Require Import Model.Reader Model.Writer Model.Compiler Proofs.ArrayProps Proofs.BlockProps Proofs.ShiftProps Proofs.CompilerProps Proofs.CompilerGaps Gen.GeneratedOk.
 Open Scope string_scope. Open Scope list_scope. Open Scope Z_scope.
 
 (* The source generator of compiler.py is modelled in Model/Compiler.v: a PLAN (seek / align / reset / sub-reader / bit-field / block instructions)
@@ -54,12 +54,32 @@ Theorem compiled_reader_is_interpreted_reader : forall c fuel nm fs p,
   compile_plan c false fs = Ok p ->
   forall s pos ctx, 0 <= pos -> req (read_compiled c fuel false fs s pos) (read_ty c fuel (TStruct nm fs false) s pos ctx).
 Proof. exact compiled_is_interpreted. Qed.
+(* the same for a block WITH PADDING (alignment gaps of an aligned structure, forward set offsets): the members as runs `GB` of adjacent members, each
+   run preceded by a gap of pad bytes ("x" in the format, skipped by the buffer offsets of the getters).  One read of the whole extent, one unpack -
+   is reading every member at its own place.  A member of size zero must not follow a gap (`gok`): there the block reader asks for the gap's bytes
+   where the member-wise reader asks for nothing. *)
+Theorem padded_block_reads_memberwise : forall c fuel GB al B i, gok c GB -> gsize c GB <= 9223372036854775807 ->
+  struct_info c al B (match B with f :: _ => f_off f | [] => None end) 0 = Ok (info_g c GB) -> gen_block c al B = Ok i ->
+  forall s o cal st, 0 <= p_pos st ->
+    req (run_instr c (fun f => read_ty c fuel (f_ty f)) s o cal i st) (do r <- seq_g c fuel GB s (p_pos st) st; Ok (set_pos (fst r) (snd r))).
+Proof. exact block_sound_g. Qed.
+(* THE PROPERTY for ALIGNED structures of scalars (`acls`: no set offsets, no bit fields, members that are scalars of any kind or fixed arrays of
+   scalars, of positive size and alignment at least 1): the aligned layout gives every member an offset at or after the end of the one before, the
+   generator makes ONE padded block of the whole structure followed by the seek over the tail padding, and running that returns exactly what the
+   interpreted reader returns - the same object and the same end position (tail padding included) - or both raise. *)
+Theorem compiled_aligned_reader_is_interpreted_reader : forall c fuel nm fs p,
+  Forall (acls c) fs -> NoDup (map f_name fs) -> (forall lay n, layout_struct c true fs = Ok lay -> l_size lay = Some n -> n <= 9223372036854775807) ->
+  compile_plan c true fs = Ok p ->
+  forall s pos ctx, 0 <= pos -> req (read_compiled c fuel true fs s pos) (read_ty c fuel (TStruct nm fs true) s pos ctx).
+Proof. exact compiled_aligned_is_interpreted. Qed.
 Theorem sub_readers_of_the_position_class_qualify : forall c fuel f, shift_ok [] c (f_ty f) = true -> (forall n, ty_size c (f_ty f) = Some n -> 0 <= n) -> sub_ok c fuel f.
 Proof. exact sub_ok_of_shift. Qed.
 
 Print Assumptions format_optimisation_keeps_the_format.
 Print Assumptions generated_block_reads_memberwise.
 Print Assumptions compiled_reader_is_interpreted_reader.
+Print Assumptions padded_block_reads_memberwise.
+Print Assumptions compiled_aligned_reader_is_interpreted_reader.
 Print Assumptions block_unpack_is_fieldwise.
 Print Assumptions any_grouping_into_blocks_is_fieldwise.
 Print Assumptions fieldwise_is_the_interpreted_loop.
@@ -107,3 +127,28 @@ Example exc_run : let s := [1; 2; 3; 4; 5; 6; 7; 8; 9; 10; 11; 65; 66; 67; 1; 2;
   (exists v, read_compiled exc_cfg 50 false exc_fs s 0 = Ok (v, 36)) /\
   (exists er, read_compiled exc_cfg 50 false exc_fs (firstn 35 s) 0 = Err er) /\ (exists er, read_ty exc_cfg 50 (TStruct "m" exc_fs false) (firstn 35 s) 0 [] = Err er).
 Proof. cbv zeta. split; [vm_compute; reflexivity|]. split; [eexists; vm_compute; reflexivity|]. split; eexists; vm_compute; reflexivity. Qed.
+
+(* an aligned structure of the class: gaps before b (3 bytes), e (3 bytes), and 5 bytes of tail padding *)
+Definition exa_fs := [Fld "a" false (TPrim (PInt 1 false true) 1) None None; Fld "b" false (TPrim (PInt 4 false true) 4) None None;
+                      Fld "c" false (TPrim (PInt 2 true true) 2) None None; Fld "d" false (TArr (TPrim PChar 1) (LFixed 3)) None None;
+                      Fld "e" false (TPrim (PInt 8 false true) 8) None None; Fld "f" false (TPrim (PInt 3 false false) 4) None None].
+Example exa_class : Forall (acls exc_cfg) exa_fs /\ NoDup (map f_name exa_fs) /\
+  (forall lay n, layout_struct exc_cfg true exa_fs = Ok lay -> l_size lay = Some n -> n <= 9223372036854775807) /\ exists p, compile_plan exc_cfg true exa_fs = Ok p.
+Proof.
+  split; [|split; [|split]].
+  - repeat (apply Forall_cons; [split; [reflexivity|]; split; [split; [reflexivity|]; split; [vm_compute; discriminate|vm_compute; split; [reflexivity|discriminate]]|vm_compute; discriminate]|]).
+    apply Forall_nil.
+  - cbn. repeat constructor; cbn; intuition discriminate.
+  - intros lay n H. vm_compute in H. injection H as <-. cbn [l_size]. intros H. injection H as <-. lia.
+  - eexists. vm_compute. reflexivity.
+Qed.
+Example exa_plan : (do p <- compile_plan exc_cfg true exa_fs; Ok (skel p)) =
+  Ok [SBlock 27 [(1, "B"); (3, "x"); (1, "I"); (1, "h"); (6, "x"); (1, "Q"); (3, "x")] true
+        [("a", GData 0, 1); ("b", GData 1, 4); ("c", GData 2, 2); ("d", GBuf 10 13, 3); ("e", GData 3, 8); ("f", GBuf 24 27, 3)]; SAlignTail].
+Proof. vm_compute. reflexivity. Qed.
+Example exa_run : let s := [1; 0; 0; 0; 2; 0; 0; 0; 255; 255; 65; 66; 67; 0; 0; 0; 3; 0; 0; 0; 0; 0; 0; 0; 9; 8; 7; 0; 0; 0; 0; 0; 77] in
+  read_compiled exc_cfg 50 true exa_fs s 0 = read_ty exc_cfg 50 (TStruct "m" exa_fs true) s 0 [] /\
+  (exists v, read_compiled exc_cfg 50 true exa_fs s 0 = Ok (v, 32)) /\
+  (exists v, read_compiled exc_cfg 50 true exa_fs (firstn 27 s) 0 = Ok (v, 32)) /\
+  (exists er, read_compiled exc_cfg 50 true exa_fs (firstn 26 s) 0 = Err er) /\ (exists er, read_ty exc_cfg 50 (TStruct "m" exa_fs true) (firstn 26 s) 0 [] = Err er).
+Proof. cbv zeta. split; [vm_compute; reflexivity|]. split; [eexists; vm_compute; reflexivity|]. split; [eexists; vm_compute; reflexivity|]. split; eexists; vm_compute; reflexivity. Qed.
